@@ -3,6 +3,7 @@ import CliUtils.Drv.C19
 import CliUtils.Drv.C15
 import CliUtils.Drv.C06
 import CliUtils.Drv.C20
+import CliUtils.Drv.C17
 /-
   Line-protocol driver.  stdin: one JSON object per line  {"d": domain, "i": input, "o": implementation output}
   stdout: one line per case that needs attention, then one summary line.
@@ -17,7 +18,13 @@ def handlers : List (String × Handler) := [
   ("dep", C15.handleDep),
   ("wait", C06.handleWait),
   ("print", C20.handlePrint),
-  ("grammar-neg", C20.handleGrammarNeg)
+  ("grammar-neg", C20.handleGrammarNeg),
+  ("aggregate", C17.handleAggregate),
+  ("rsequal", C17.handleRsEqual),
+  ("poll", C17.handlePoll),
+  ("collector", C17.handleCollector),
+  ("podctl", C17.handlePodctl),
+  ("readstatus", C17.handleReadStatus)
 ]
 
 structure Stats where
